@@ -232,7 +232,9 @@ MUTANTS = [
      "            _set_tensors(self, copy.copy(all_tensors))\n", 1),
     ("c10_debug_install_outside_try", "C10", "xitorch/_core/editable_module.py",
      "        try:\n            for (objdict, key), tensor in zip(all_places, copy_tensors0):\n                objdict[key] = tensor\n",
-     "        for (objdict, key), tensor in zip(all_places, copy_tensors0):\n            objdict[key] = tensor\n        try:\n", 1),
+     "        for (objdict, key), tensor in zip(all_places, copy_tensors0):\n            objdict[key] = tensor\n        try:\n", 0),
+    # (equivalent in reachable configurations: immutable containers are no longer traversed and module parameters
+    # are written without parsing names, so the installation itself cannot raise any more)
     ("c17_objparams_stale_revert", "C17", "xitorch/_core/pure_function.py",
      "        return self._uniq.get_unique_objs(self._get_all_obj_params_init())\n\n    def set_objparams",
      "        return self._uniq.get_unique_objs()\n\n    def set_objparams", 1),
@@ -254,7 +256,16 @@ MUTANTS = [
     ("c11_shape_list_revert", "C11", "xitorch/_core/linop.py",
      "ALL:        if tuple(self.shape[-2:]) != tuple(b.shape[-2:]):", "        if self.shape[-2:] != b.shape[-2:]:", 1),
     ("c11_hermitian_atol_revert", "C11", "xitorch/_core/linop.py",
-     "rtol=1e-5, atol=1e-8 * scale)", "rtol=1e-5, atol=1e-8)", 1),
+     "    tol = 1e-8 * torch.sqrt(s.unsqueeze(-1) * s.unsqueeze(-2)) + 1e-5 * absmat\n",
+     "    tol = 1e-8 + 1e-5 * absmat\n", 1),
+    ("c11_hermitian_global_scale_revert", "C11", "xitorch/_core/linop.py",
+     "    tol = 1e-8 * torch.sqrt(s.unsqueeze(-1) * s.unsqueeze(-2)) + 1e-5 * absmat\n",
+     "    tol = 1e-8 * absmat.max() + 1e-5 * absmat\n", 1),
+    ("c11_zero_operator_adjoint_revert", "C11", "xitorch/_core/linop.py",
+     "        if not y.requires_grad:\n", "        if False:\n", 1),
+    ("c16_debug_nograd_revert", "C16", "xitorch/_core/editable_module.py",
+     "            with torch.enable_grad():\n                output = method(*args, **kwargs)\n",
+     "            if True:\n                output = method(*args, **kwargs)\n", 1),
     ("c11_bcast_max_revert", "C11", "xitorch/_utils/bcast.py",
      "        res.append(others.pop() if others else 1)\n", "        res.append(max(sizes))\n", 1),
     ("c11_nofa_init_subclass", "C11", "xitorch/_core/linop.py",
